@@ -432,6 +432,9 @@ class LibMixin:
                         pass
                     else:
                         return [(st, self.module_const(mod, name, item))]
+                if not h.cls[0].startswith("liquid"):
+                    # instance of a library class (StringIO ...): methods are modelled builtins
+                    return [(st, VBuiltin(f"{h.cls[1]}.{name}", v))]
                 if name in h.field_sorts or h.field_sorts.get("*"):
                     val = _fresh_of_sort(h.field_sorts.get(name, h.field_sorts.get("*")), f"{h.name or h.cls[1]}.{name}")
                     h.fields[name] = val
